@@ -12,7 +12,8 @@ import hashlib
 VERIF = os.path.dirname(os.path.dirname(os.path.abspath(__file__)))
 REPO = os.path.abspath(os.environ.get("VERIF_REPO", "/repo"))
 BUILD = os.path.join(VERIF, ".build")
-EVIDENCE = os.path.join(VERIF, "evidence")
+# self-test runs against mutated scratch trees must not overwrite the committed evidence
+EVIDENCE = os.environ.get("VERIF_EVIDENCE_DIR") or os.path.join(VERIF, "evidence")
 REPLAY = os.path.join(EVIDENCE, "replay")
 KNOWN = os.path.join(VERIF, "KNOWN_FINDINGS.txt")
 
